@@ -267,8 +267,9 @@ def friendly_selection(db):
     out.append(('vector-threshold', tops == ['a1.config.n_verifier_friendly_commitment_layers'],
                 f'compute_root_from_queries is started with n_verifier_friendly_layers = {tops}', vd.loc()))
     rec = [exprtree.show(Tr.operand(t['args'][2])) for _, t in cr.calls() if t['f'].get('resolved') == COMPUTE_ROOT and len(t['args']) > 2]
-    out.append(('vector-threshold-recursion', bool(rec) and all(x == 'a3' for x in rec),
-                f'recursive calls pass n_verifier_friendly_layers = {rec}', cr.loc()))
+    rewritten = [d for d in defs_of(cr).get(3, [])]
+    out.append(('vector-threshold-recursion', all(x == 'a3' for x in rec) and not rewritten,
+                f'the threshold stays the same for every node: recursive calls pass {rec}, assignments to the parameter: {len(rewritten)}', cr.loc()))
     if k < 1:
         out.append(('vector-flag-site', False, 'no hash_friendly_unfriendly call site in compute_root_from_queries', cr.loc()))
     return out
